@@ -166,3 +166,51 @@ func VH_C04_level_text() {
 	zzverif.Assert(l2 == l, "UnmarshalText(MarshalText(l)) == l")
 	zzverif.Reach("C04/text")
 }
+
+// Level text round trip with CUSTOMISED level names, set after ParseLevel was already used with
+// the default names (the names are read when parsing, not cached).
+func VH_C04_level_text_custom() {
+	if zzverif.Choice(2) == 1 {
+		_, _ = ParseLevel("info")
+		var l0 Level
+		_ = l0.UnmarshalText([]byte("warn"))
+	}
+	switch zzverif.Choice(2) {
+	case 0:
+		LevelFieldMarshalFunc = func(l Level) string {
+			switch l {
+			case TraceLevel:
+				return "TRC"
+			case DebugLevel:
+				return "DBG"
+			case InfoLevel:
+				return "INF"
+			case WarnLevel:
+				return "WRN"
+			case ErrorLevel:
+				return "ERR"
+			case FatalLevel:
+				return "FTL"
+			case PanicLevel:
+				return "PNC"
+			case Disabled:
+				return "OFF"
+			case NoLevel:
+				return "NONE"
+			}
+			return "?"
+		}
+	case 1:
+		LevelWarnValue, LevelErrorValue, LevelInfoValue = "warning", "failure", "notice"
+	}
+	named := []Level{TraceLevel, DebugLevel, InfoLevel, WarnLevel, ErrorLevel, FatalLevel, PanicLevel, Disabled, NoLevel}
+	l := named[zzverif.Choice(len(named))]
+	txt, err := l.MarshalText()
+	zzverif.Assert(err == nil, "MarshalText succeeds")
+	var l2 Level
+	zzverif.Assert(l2.UnmarshalText(txt) == nil, "UnmarshalText succeeds with customised level names")
+	zzverif.Assert(l2 == l, "UnmarshalText(MarshalText(l)) == l with customised level names")
+	back, err2 := ParseLevel(string(txt))
+	zzverif.Assert(err2 == nil && back == l, "ParseLevel(MarshalText(l)) == l with customised level names")
+	zzverif.Reach("C04/text-custom")
+}
